@@ -42,6 +42,10 @@ func libFiles() []*File {
 		{NS: "lib.deep", Name: "mixed", Params: []Param{{"o", true}, {"r", false}, {"o2", true}, {"r2", false}}, Body: []*Cmd{
 			txt("m("), pr(bin("?:", vr("o"), S("-"))), pr(vr("r")), pr(bin("?:", vr("o2"), S("-"))), pr(vr("r2")), txt(")"),
 		}},
+		// header params, one written with a default value: nothing binds the default, the param stays required.
+		{NS: "lib.deep", Name: "hdrdef", Params: []Param{{"r", false}, {"o", true}}, Header: true, Defaults: map[string]string{"r": "3"}, Body: []*Cmd{
+			txt("h("), pr(vr("r")), pr(bin("?:", vr("o"), S("-"))), txt(")"),
+		}},
 		// passes everything on.
 		{NS: "lib.deep", Name: "relay", Params: []Param{{"x", true}, {"y", true}}, Body: []*Cmd{
 			txt("r("), {K: "call", Call: &CallSpec{Name: ".show", Target: "lib.deep.show", AllData: true}}, txt(")"),
